@@ -1009,8 +1009,29 @@ fn dump<'tcx>(tcx: TyCtxt<'tcx>, dir: &str) {
         }
     }
 
+    // re-exports of local types: `pub use inner::T` makes `outer::T` another name of `outer::inner::T`
+    let mut reexports = vec![];
+    let mut mods: Vec<LocalDefId> = vec![rustc_hir::def_id::CRATE_DEF_ID];
+    for ldid in tcx.hir_crate_items(()).definitions() {
+        if tcx.def_kind(ldid.to_def_id()) == DefKind::Mod {
+            mods.push(ldid);
+        }
+    }
+    for m in mods {
+        let mpath = if m == rustc_hir::def_id::CRATE_DEF_ID { String::new() } else { path_s(tcx, m.to_def_id()) };
+        for ch in tcx.module_children_local(m) {
+            if let Res::Def(k, d) = ch.res {
+                if d.is_local() && matches!(k, DefKind::Struct | DefKind::Enum | DefKind::Union) {
+                    let alias = if mpath.is_empty() { ch.ident.name.to_string() } else { format!("{}::{}", mpath, ch.ident.name) };
+                    reexports.push(J::obj(vec![("alias", J::s(alias)), ("real", J::s(path_s(tcx, d)))]));
+                }
+            }
+        }
+    }
+
     let root = J::obj(vec![
         ("crate", J::s(krate.clone())),
+        ("reexports", J::Arr(reexports)),
         ("n_bodies", J::UInt(n_bodies as u128)),
         ("fns", J::Arr(fns)),
         ("adts", J::Arr(adts)),
